@@ -6,7 +6,7 @@ package field
 // never part of /repo).  Add-only: nothing here changes existing behaviour.
 
 func (fe *Element) VerifSetMont(l [4]uint64) *Element { fe.m = l; return fe }
-func (fe *Element) VerifMont() [4]uint64             { return fe.m }
+func (fe *Element) VerifMont() [4]uint64              { return fe.m }
 func (fe *Element) VerifPow3mod4(x *Element) *Element { return fe.pow3mod4(x) }
 func (fe *Element) VerifSetShortBytes(b []byte) *Element {
 	return fe.setShortBytes(b)
